@@ -330,9 +330,16 @@ func deltaEqual(a, b []*rsync.Operation) bool {
 // table entry it reconstructs and the entry against whose signature the real
 // deltification reproduces it.
 func (p *pair) scan(ancestor *core.Entry, full bool) (*core.Snapshot, error) {
+	return p.scanCtx(context.Background(), context.Background(), ancestor, full)
+}
+
+// scanCtx is scan with the contexts the two callers pass (they may be
+// cancelled while the scan runs: the client then sends its completion request
+// early and the server cancels the context of the endpoint's Scan).
+func (p *pair) scanCtx(ctxL, ctxR context.Context, ancestor *core.Entry, full bool) (*core.Snapshot, error) {
 	ancIdx := p.tbl.add(&core.Snapshot{Content: ancestor, PreservesExecutability: true})
-	sl, el, tl := p.L.Scan(context.Background(), ancestor, full)
-	sr, er, tr := p.R.Scan(context.Background(), ancestor, full)
+	sl, el, tl := p.L.Scan(ctxL, ancestor, full)
+	sr, er, tr := p.R.Scan(ctxR, ancestor, full)
 	loc := p.scanOut(sl, el, tl, p.normL, false)
 	rem := p.scanOut(sr, er, tr, p.normR, true)
 	p.noteDiff("scan", loc, rem)
